@@ -254,6 +254,44 @@ def run(ctx):
             if srv.dec.update(wire_out) != plain_out:      # the server's decryptor: the stream continues
                 ctx.violation('after the real installation point, sent bytes are not CFB8(secret) of the plaintext',
                               {}, key={'kind': 'install-send'})
+            # whole PACKETS through Packet.write on the installed wrapper, small and large (several KiB)
+            if not cont and (trial < 4 or ctx.thorough):
+                from minecraft.networking.packets import serverbound as sbp_
+                for size in (10, 4000, 4096, 4097, 5000, 9000):
+                    pm = sbp_.play.PluginMessagePacket(channel='x:y', data=bytes(rng.randrange(256) for _ in range(size)))
+                    pm.context = conn.context
+                    mark = len(fsock.sent)
+                    pm.write(conn.socket)
+                    ct = bytes(fsock.sent[mark:])
+                    body = refcodec.varint(pm.get_id(conn.context)) + refcodec.string('x:y') + pm.data
+                    want_plain = refcodec.varint(len(body)) + body
+                    got_plain = srv.dec.update(ct)
+                    ctx.case(('install-packet', trial, size))
+                    if got_plain != want_plain:
+                        k0 = next((i for i, (a, b) in enumerate(zip(got_plain, want_plain)) if a != b), min(len(got_plain), len(want_plain)))
+                        ctx.violation('a %d-byte plugin message written through Packet.write on the encrypted connection does not '
+                                      'decrypt to its frame at the server (first difference at byte %d of %d; plaintext on the wire: %s)'
+                                      % (size, k0, len(want_plain), ct[k0:k0 + 16] == want_plain[k0:k0 + 16]),
+                                      {'size': size}, key={'kind': 'install-packet', 'size': size})
+                        break
+    # ---- every login draws its own secret, also when the SAME Connection object logs in again
+    for trial in range(ctx.scale(4, 20)):
+        cfg = {'version': 757, 'script': [('encrypt', 'srv', b'again'), ('success',)], 'rsa': '1024'}
+        with simnet.Net(lambda s_: RefServer(s_, cfg)) as net:
+            conn = C.Connection('h', 1, username='u', allowed_versions={757}, handle_exception=lambda e, i: None)
+            secrets = []
+            for k in range(3):
+                cfg['script'] = [('encrypt', 'srv', b'again%d' % k), ('success',)]
+                conn.connect()
+                net.run_threads()
+                secrets.append(cfg['servers'][-1].secret)
+                conn.disconnect()
+                net.run_threads()
+        ctx.case(('relogin-secrets', trial))
+        if any(s_ is None or len(s_) != 16 for s_ in secrets) or len(set(secrets)) != len(secrets):
+            ctx.violation('three logins of one Connection object used the shared secrets %r: not fresh per login'
+                          % ([s_ and s_.hex() for s_ in secrets],), {'secrets': [s_ and s_.hex() for s_ in secrets]},
+                          key={'kind': 'relogin-secret'})
     # ---- AES block function itself: Lean vs cryptography vs refcodec
     from cryptography.hazmat.primitives.ciphers import Cipher, algorithms, modes
     blocks = [(bytes(rng.randrange(256) for _ in range(16)), bytes(rng.randrange(256) for _ in range(16)))
